@@ -253,6 +253,10 @@ impl Disk {
     }
     /// Format a disk with the ProDOS file system
     pub fn format(&mut self, vol_name: &str, floppy: bool, time: Option<chrono::NaiveDateTime>) -> STDRESULT {
+        if !pack::is_name_valid(vol_name) {
+            error!("attempt to create a bad file name {} for a ProDOS volume",vol_name);
+            return Err(Box::new(Error::Syntax));
+        }
         // make sure we start with all 0
         trace!("formatting: zero all");
         for iblock in 0..self.total_blocks {
